@@ -60,13 +60,17 @@ CASE_TIMEOUT = 200
 # combination sum_i c_i eta(t_i); its requested tolerance is therefore
 #   eps * sum_i |c_i| |eta(t_i)|   +   EPSABS * nquad * sum_i |c_i|
 # and the bound is C_REL*(first part) + C_ABS*(second part).  Calibration on
-# the unchanged tree (quick tier, seeds 0-3, + thorough seed 0): outside the
-# regime of the two open accuracy findings the worst ratio deviation/bound is
-# 0.04 (>= 25x headroom); C_REL = 100 as frozen in DESIGN section C12.
+# the unchanged tree (quick tier seeds 0-3 + thorough seed 0, 2 300 cases):
+# every comparison that held with a ratio deviation/bound > 0.1 was examined
+# with the classifiers; those that are NOT small instances of the two open
+# accuracy findings reach at most 0.12 (obs "held_ratio_unattributed"), i.e.
+# >= 8x headroom; C_REL = 100 as frozen in DESIGN section C12, C_ABS = 4
+# (with C_ABS = 1 the worst unattributed ratio was 0.46: an absolute error of
+# 8 x 1.49e-8 on a square built from 16 quad calls).
 EPSABS = 1.49e-8            # scipy's default absolute tolerance
 DEFAULT_EPSREL = 2.0 ** -26  # oqupy.config.INTEGRATE_EPSREL
 C_REL = 100.0
-C_ABS = 1.0
+C_ABS = 4.0
 C_TWIN = 1e-12              # CustomSD(power law) vs PowerLawSD, relative
 # The known-finding tags are given on measured evidence only (replica of the
 # pinned integrand == library value, repaired integrand / tail == reference);
@@ -97,7 +101,7 @@ ASSUMPTIONS = [
     "estimate <= 1e-9 relative) else the case is skipped, never judged",
     "requested tolerance of the library = max(scipy default epsabs 1.49e-8, "
     "epsrel*|integral|) per quad call; bound = 100*epsrel*sum|eta terms| + "
-    "epsabs*(number of quad calls)",
+    "4*epsabs*(number of quad calls)",
     "custom j-functions are finite for w -> infinity and behave like "
     "w^zeta at 0; custom correlation callables are C(-t) = C(t)^*",
     "Matsubara times restricted to [0, beta]",
